@@ -184,7 +184,10 @@ def genLeaf (ctx : GenCtx) (id : Nat) (l : Leaf) (r : Rng) : Option (Val × Rng)
       let others := vals.filter (fun v => !steer.contains v)
       -- directed: sample k takes the k-th compared value (then one value that no condition mentions), later samples are random
       let opts := steer ++ others.take 1
-      let pool := if interesting.isEmpty then vals
+      -- sweep mode (500000 ≤ sample < 1000000): every enum field takes its ((sample - 500000) mod n)-th enumerator, so that a run of
+      -- n samples visits every declared enumerator of every enum
+      let pool := if 500000 ≤ r.sample && r.sample < 1000000 then [vals.getD ((r.sample - 500000) % vals.length) 0]
+        else if interesting.isEmpty then vals
         else if r.sample < 2 * opts.length then [opts.getD ((r.sample + r.steerSeen) % opts.length) 0]
         else steer ++ vals
       let r := if interesting.isEmpty then r else { r with steerSeen := r.steerSeen + 1 }
